@@ -3,6 +3,7 @@ package sim
 import (
 	"errors"
 	"fmt"
+	"io"
 	"strings"
 	"time"
 )
@@ -96,6 +97,11 @@ func checkTermination(r *Run, w *cliWorld, faultFired string, faultStatus int, c
 		if faultFirst && !closedBefore(w) && !errors.Is(w.waitErr, errSimTransport) && !strings.Contains(w.waitErr.Error(), errSimTransport.Error()) {
 			r.Fail("error-identity", "transport", "the transport failed but Wait yielded %s", describeErr(w.waitErr))
 		}
+	case "truncate":
+		// the connection was cut in the middle of a body whose length had been announced: an HTTP failure like any other
+		if faultFirst && !closedBefore(w) && !errors.Is(w.waitErr, io.ErrUnexpectedEOF) && !strings.Contains(w.waitErr.Error(), "unexpected EOF") {
+			r.Fail("error-identity", "truncate", "a response body ended before its announced length but Wait yielded %s", describeErr(w.waitErr))
+		}
 	case "ontracks":
 		// while the user's OnTracks executes (it takes simulated time) a stream downloader may legitimately fail first
 		legit := false
@@ -132,7 +138,7 @@ func scC12Fault(r *Run) {
 	o := c12Origin(r)
 	lat := Pick(T, 0, 10, 100)
 	pos := r.SweepPos % 40
-	kind := []string{"status", "transport", "stall", "ontracks", "blackhole"}[(r.SweepPos/40)%5]
+	kind := []string{"status", "transport", "stall", "ontracks", "blackhole", "truncate"}[(r.SweepPos/40)%6]
 	status := Pick(T, 404, 500, 503, 403)
 	if kind == "ontracks" && pos > 0 {
 		return // the OnTracks fault has one position only
@@ -249,6 +255,13 @@ func runC12Close(r *Run, handover bool) {
 	// half of the scenarios sweep the Close position over scheduler events, the other half over a time grid
 	// (events are sparse while samples are being paced; a grid of 5..500 ms reaches the moments in between)
 	grid := time.Duration(Pick(T, 0, 0, 0, 5, 23, 23, 100, 500)) * time.Millisecond
+	if !handover && T.Chance(1, 5) {
+		// Close called from inside the SweepPos-th user callback, on the client's own goroutine ("at any moment")
+		grid = 0
+		closeAt = 1 << 30
+		w.closeAtCallback = r.SweepPos + 1
+		r.Probe("close-from-callback-configured")
+	}
 	if handover {
 		grid = time.Duration(Pick(T, 23, 37, 61)) * time.Millisecond // 200 sweep positions: the first 4.6-12 s of playback
 	}
@@ -318,7 +331,7 @@ func runC12Close(r *Run, handover bool) {
 
 func init() {
 	register(&PropDef{ID: "C12", Quick: 30000, Thorough: 600000, Profiles: []ProfileDef{
-		{Name: "fault-sweep", Share: 1, Sc: scC12Fault, Sweep: 200},
+		{Name: "fault-sweep", Share: 1, Sc: scC12Fault, Sweep: 240},
 		{Name: "close-sweep", Share: 1, Sc: scC12Close, Sweep: 200},
 		{Name: "handover", Share: 1, Sc: scC12Handover, Sweep: 200},
 	}})
